@@ -250,7 +250,16 @@ func (r *repeat) more(s bitStream) bool {
 		pCont = 0
 	}
 
-	cont := flipBiasedCoin(s, pCont)
+	var cont bool
+	if r.forceStop {
+		// a forced stop is caused by rejected attempts, which are pruned from the recording;
+		// record a block that means "stop" for any pContinue < 1, so that a replay stops here as well
+		i := s.beginGroup(coinFlipLabel, false)
+		s.drawBits(0)
+		s.endGroup(i, false)
+	} else {
+		cont = flipBiasedCoin(s, pCont)
+	}
 	if cont {
 		r.count++
 	} else {
